@@ -119,6 +119,10 @@ def consume(ctx, results, tag):
         if r is None:
             continue
         if "harness_exception" in r:
+            lf = core.library_failure(r)
+            if lf is not None:
+                ctx.violation(lf)
+                continue
             raise tlc.MachineryError("replay worker failed: %s\n%s" % (r["harness_exception"], r["tb"]))
         if r.get("skipped"):
             ctx.extra["skipped"] = ctx.extra.get("skipped", 0) + 1
